@@ -18,6 +18,7 @@ EXPLANATION = (
     "D7 event numbers: int(N_obs) for conditional tests, numpy.random.poisson(forecast total) for the L-test, "
     "len(unique(nonzero(obs))) active cells for binary/Brier, the simulators assert sum == requested number and the "
     "rejection loops count a cell only when it was empty; D8 quantile = sum(simulated <= observed) / num_simulations. "
+    "D1.forward the public wrappers hand seed / random_numbers / num_simulations to the kernel unchanged (no rebinding; a conversion under a None test is accepted); D4.double the weights are built in the supplied precision; shared C11-D1/D4 scaled view. "
     "NOT decided: that searchsorted implements the interval rule (numpy contract), distributional correctness, "
     "bit-for-bit determinism across numpy versions.")
 CLAUSES = {'D1': 'seed protocol', 'D2': 'RNG sources', 'D3': "side='right'", 'D4': 'self-normalised CDF', 'D5': 'no masked weights',
